@@ -116,6 +116,10 @@ extern "C" void h_main() {
         ioms.push_back(OperatorPresets::n(0) * OperatorPresets::n(1));
 #elif IOMSET == 5     // parity-like: N mod 2 expressed as (1 - prod (1 - 2 n_i))/2 is not diagonal-linear; use N and N^2 together
         ioms.push_back(Ntot); ioms.push_back(Ntot * Ntot);
+#elif IOMSET == 6     // non-linear and NOT involving the low modes: double occupancy of the last two modes (commutes with H when they decouple)
+        ioms.push_back(OperatorPresets::n(M - 2) * OperatorPresets::n(M - 1));
+#elif IOMSET == 7     // N together with the non-linear candidate of set 6
+        ioms.push_back(Ntot); ioms.push_back(OperatorPresets::n(M - 2) * OperatorPresets::n(M - 1));
 #endif
         Symm.compute(ioms);
 #endif
